@@ -209,17 +209,21 @@ def gen_cf(rnd, d, scope, loops, st):
     return [rnd.choice(["assert", "assert_unreachable"]), val()]
 
 
-def coq_of_node_real(node):
+def coq_of_node_real(node, clean=lambda x: x):
     """like coq_of_node, for IR of compiled contracts: bytes leaves (inside `data`) become leaves named like the opaque
-    assembly item that compile_ir emits for them (c15_asm.from_real naming)"""
+    assembly item that compile_ir emits for them (c15_asm.from_real naming); `clean` maps names (label names are source
+    text) to something printable inside a Coq string"""
     if isinstance(node.value, bytes):
         from vyper.evm.assembler.instructions import DATA_ITEM
         from vlib import c15_asm
-        return f'(Var "{c15_asm.from_real([DATA_ITEM(node.value)])[0][1]}")'
+        return f'(Var "{clean(c15_asm.from_real([DATA_ITEM(node.value)])[0][1])}")'
     if isinstance(node.value, int):
         return f"(Lit {coqrun.hexlit(node.value)})"
-    if not isinstance(node.value, str) or '"' in node.value:
+    if not isinstance(node.value, str):
+        raise ValueError(f"unsupported IR value {node.value!r}")
+    v = clean(node.value)
+    if '"' in v:
         raise ValueError(f"unsupported IR value {node.value!r}")
     if _is_var(node):
-        return f'(Var "{node.value}")'
-    return f'(Node "{node.value}" [{"; ".join(coq_of_node_real(a) for a in node.args)}])'
+        return f'(Var "{v}")'
+    return f'(Node "{v}" [{"; ".join(coq_of_node_real(a, clean) for a in node.args)}])'
